@@ -7,6 +7,7 @@ import MiniMoka.Unsync
 import MiniMoka.Sync
 import MiniMoka.Spec.Oracles
 import MiniMoka.DequeHeap
+import MiniMoka.Config
 
 namespace MiniMoka
 namespace Driver
@@ -123,6 +124,12 @@ def stepLine (m : Machine) (line : String) : Machine × Option String :=
     match parseCfg op with
     | none => (.dead, some s!"{op} -> bad-op")
     | some c =>
+      let knobs : Config.Knobs :=
+        { maxCapacity := c.cap, hasWeigher := c.weigher != .none, timeToLive := c.ttl, timeToIdle := c.tti }
+      match (if c.kind == .unsync || c.kind == .sync then Config.build knobs
+             else .ok { maxCapacity := none, timeToLive := none, timeToIdle := none }) with
+      | .error f => (.dead, some s!"{op} -> panic {f.toString}")
+      | .ok _ =>
       match c.kind with
       | .unsync => (.unsync c.params {}, some s!"{op} -> ok")
       | .sync => (.sync c.params {}, some s!"{op} -> ok")
@@ -135,6 +142,9 @@ def stepLine (m : Machine) (line : String) : Machine × Option String :=
     | .sketch _ => facadeLine m op
     | .deque _ => facadeLine m op
     | .unsync p s =>
+      if op == "policy" then
+        (m, some s!"{op} -> policy cap={optNat p.cap} ttl={optNat p.ttl} tti={optNat p.tti}")
+      else
       match parseOp op with
       | none => (m, some s!"{op} -> bad-op")
       | some o =>
@@ -144,6 +154,9 @@ def stepLine (m : Machine) (line : String) : Machine × Option String :=
           | _ => Machine.unsync p s'
         (m', some s!"{op} -> {obs ob}")
     | .sync p s =>
+      if op == "policy" then
+        (m, some s!"{op} -> policy cap={optNat p.cap} ttl={optNat p.ttl} tti={optNat p.tti}")
+      else
       match parseOp op with
       | none => (m, some s!"{op} -> bad-op")
       | some o =>
